@@ -627,6 +627,32 @@ pub fn check(ctx: &mut Ctx, input: &[u8]) {
                     st!("Compound::next-after-end");
                     let _ = c.next();
                 }
+                // the provided Iterator methods an implementation may override, and the adaptors std builds on them,
+                // also with positions at and beyond the end of the datagram ("every public ... iterator returns normally")
+                st!("Compound::count/last/size_hint");
+                if let Ok(c) = Compound::parse(b) {
+                    let _ = c.size_hint();
+                    let _ = c.take(bound).count();
+                }
+                if let Ok(c) = Compound::parse(b) {
+                    let _ = c.take(bound).last();
+                }
+                for k in [0usize, 1, n.saturating_sub(1), n, n + 1, n + 9] {
+                    st!("Compound::nth");
+                    if let Ok(mut c) = Compound::parse(b) {
+                        let _ = c.nth(k);
+                        let _ = c.nth(k);
+                        let _ = c.next();
+                    }
+                    st!("Compound::skip");
+                    if let Ok(c) = Compound::parse(b) {
+                        let _ = c.skip(k).take(bound).count();
+                    }
+                    st!("Compound::step_by");
+                    if let Ok(c) = Compound::parse(b) {
+                        let _ = c.step_by(k + 1).take(bound).count();
+                    }
+                }
                 Ok(())
             }
         }
